@@ -1,0 +1,39 @@
+//! Verification hooks. Compiled only with `--cfg reclass_rs_verif`; re-exports crate-private
+//! items and exposes thin wrappers over private functions so that an external harness can
+//! observe them. Nothing here changes behaviour.
+#![allow(clippy::pedantic)]
+
+use anyhow::Result;
+use std::path::PathBuf;
+
+pub use crate::config::{CompatFlag, Config};
+pub use crate::inventory::Inventory;
+pub use crate::list::{List, RemovableList, UniqueList};
+pub use crate::node::verif_reexports::{NodeInfo, NodeInfoMeta};
+pub use crate::node::Node;
+pub use crate::refs::Token;
+
+/// `Token::parse`
+pub fn parse_token(s: &str) -> Result<Option<Token>> {
+    Token::parse(s)
+}
+
+/// `walk_entity_dir` for nodes (`is_node`) or classes; returns `(name, path, loc)` triples.
+pub fn walk(is_node: bool, root: &str, compose_node_name: bool) -> Result<Vec<(String, PathBuf, PathBuf)>> {
+    let kind = if is_node {
+        crate::EntityKind::Node
+    } else {
+        crate::EntityKind::Class
+    };
+    let mut m = std::collections::HashMap::new();
+    crate::walk_entity_dir(&kind, root, &mut m, compose_node_name)?;
+    Ok(m.into_iter().map(|(k, v)| (k, v.path, v.loc)).collect())
+}
+
+/// `(name, path, loc)` triples of the discovered classes / nodes of a `Reclass` instance.
+pub fn entities(r: &crate::Reclass, nodes: bool) -> Vec<(String, PathBuf, PathBuf)> {
+    let m = if nodes { &r.nodes } else { &r.classes };
+    m.iter()
+        .map(|(k, v)| (k.clone(), v.path.clone(), v.loc.clone()))
+        .collect()
+}
